@@ -8,8 +8,7 @@ runs against the Go code.  Until round 8 the two were connected by examples.  He
 result of the heap version back through the final heap is the pure version applied to the argument read through
 the initial heap.  One hypothesis: the slice's elements are addresses of existing cells (`ValidAddrs`: a Go slice
 of non-nil pointers).  So the function whose frame property is proved is the function the laws speak about.
-(For the loop of `segmentpb.Sum` this is `C18_args_unchanged_sum`: the appended cells are the list `sumGoStep`
-computes.)
+All six operations that allocate or write are covered.
 
 Only property theorems and their non-vacuity examples live in this file.
 -/
@@ -62,6 +61,48 @@ theorem C18_heap_modeCut_needs_full_slice :
     (heapModeCut h 6 m).2.2.2 ≠ (modeCut 6 ⟨m.start, readSegs h m.segs⟩).outside := by
   refine ⟨by decide, by decide⟩
 
+/-- `segmentpb.Sum` on the heap (the in-place loop, then the `result` array): the `result` slice reads as the list
+the literal loop builds, and with the final re-slicing (`trimLast`, which touches no memory) it is `sum` of the
+lists the cuts were computed from — for any heap and any lists. -/
+theorem C18_heap_sum_refines (h : Heap) (cuts : List Edge) (ls : List (List Seg)) :
+    readSegs (heapSum h cuts).1 (heapSum h cuts).2 = (cuts.foldl sumGoStep ([], 0)).1 ∧
+    trimLast (dropRule (anyInfinite ls)) (readSegs (heapSum h (calcCuts ls)).1 (heapSum h (calcCuts ls)).2) =
+      sum ls :=
+  ⟨heapSum_refines h cuts, heapSum_sum h ls⟩
+
+/-- `modepb.Sum` on the heap — the alignment loop through `segmentpb.Shift` (whose result slices, shared with the
+arguments or freshly made, stay readable while later `Shift`s allocate: `heapShift_valid`), then `segmentpb.Sum` —
+reads back as `modeSum` of the modes the arguments read as; `nil` for no modes.  Hypothesis: every mode's slice
+consists of existing cells in an existing array (or is empty). -/
+theorem C18_heap_modeSum_refines (h : Heap) (ms : List HeapMode) (v : ∀ m ∈ ms, ValidSlice h m.segs) :
+    (heapModeSum h ms).2.map (fun r => (⟨r.start,
+        trimLast (dropRule (anyInfinite (modeSumLists (ms.map (HeapMode.toMode h)))))
+          (readSegs (heapModeSum h ms).1 r.segs)⟩ : Mode)) =
+      modeSum (ms.map (HeapMode.toMode h)) :=
+  heapModeSum_refines h ms v
+
+/-- What the alignment loop of `modepb.Sum` relies on: the slice `segmentpb.Shift` returns is readable again
+(existing cells, existing array), and it reads the same in every later heap. -/
+theorem C18_heap_shift_result_stable (h : Heap) (d : Int) (sl : Slice) (vs : ValidSlice h sl) :
+    ValidSlice (heapShift h d sl).1 (heapShift h d sl).2 ∧
+    ∀ h', (heapShift h d sl).1.Extends h' →
+      readSegs h' (heapShift h d sl).2 = shift d (readSegs h sl) := by
+  refine ⟨heapShift_valid h d sl vs, fun h' e => ?_⟩
+  rw [readSegs_extends' e _ (heapShift_valid h d sl vs)]
+  exact heapShift_refines h d sl vs.1
+
+/-- The same for `modepb.Shift` with the mode itself as a heap object (the model of PropsHeapTrace, whose every
+intermediate heap leaves the argument alone): what a reader finds behind the RESULT pointer in the last heap of
+the trace — start time and segment values — is `modeShift d` of what it finds behind the argument pointer before
+the call; `d = 0` returns the argument pointer itself. -/
+theorem C18_heap_modeShift_object_refines (h : HeapM) (d : Int) (p : Nat) (v : ValidMode h p) :
+    observe (((modeShiftTrace false h d p).1.getLast?).getD h) (modeShiftTrace false h d p).2 =
+      ((modeShift d ⟨(observe h p).1, (observe h p).2⟩).start,
+       (modeShift d ⟨(observe h p).1, (observe h p).2⟩).segs) ∧
+    (d = 0 → (modeShiftTrace false h d p).2 = p) := by
+  refine ⟨modeShiftTrace_refines h d p v, fun hd => ?_⟩
+  simp [modeShiftTrace, hd]
+
 /-- Frame and function together, for `segmentpb.Shift`: one call, any heap — the result reads as `shift d` of the
 argument AND the argument (indeed every pre-existing list of existing cells) reads as before, also at every
 intermediate statement. -/
@@ -89,5 +130,16 @@ example :
      let r := heapShift h (-3) ⟨0, 1, 3⟩
      (readSegs r.1 r.2, readSegs r.1 ⟨0, 1, 3⟩)) =
     ([⟨2, some 3⟩, ⟨3, none⟩], [⟨1, some 2⟩, ⟨2, some 4⟩, ⟨3, none⟩]) := by decide
+
+example : ValidSlice ⟨[⟨1, some 2⟩, ⟨2, some 4⟩, ⟨3, none⟩], [[0, 1], [2]]⟩ ⟨1, 0, 1⟩ := by
+  refine ⟨?_, Or.inl (by decide)⟩
+  intro a ha
+  have : a = 2 := by simpa [readSlice] using ha
+  subst this; decide
+example :
+    (let h : Heap := ⟨[⟨1, some 2⟩, ⟨2, some 4⟩, ⟨3, none⟩], [[0, 1], [2]]⟩
+     let ms : List HeapMode := [⟨some 0, ⟨0, 0, 2⟩⟩, ⟨some 3, ⟨1, 0, 1⟩⟩]
+     (modeSum (ms.map (HeapMode.toMode h))).map (fun r => (r.start, r.segs))) =
+    some (some 0, [⟨1, some 2⟩, ⟨2, some 1⟩, ⟨5, some 3⟩, ⟨3, none⟩]) := by decide
 
 end ScVerif.C18
